@@ -171,6 +171,177 @@ func helpers(ms []member, ps []part, topics int) {
 	}
 }
 
+// ---- byte level (Model/GroupWire.lean): the real writers / readers of the two group payloads ----------------------
+
+type entry struct {
+	name string
+	vals []int32
+}
+
+func ints32(xs []int32) string {
+	if len(xs) == 0 {
+		return "-"
+	}
+	s := make([]string, len(xs))
+	for i, x := range xs {
+		s[i] = strconv.Itoa(int(x))
+	}
+	return strings.Join(s, ",")
+}
+
+func fmtEntries(es []entry) string {
+	if len(es) == 0 {
+		return "-"
+	}
+	s := make([]string, len(es))
+	for i, e := range es {
+		s[i] = "x" + hex.EncodeToString([]byte(e.name)) + "=" + ints32(e.vals)
+	}
+	return strings.Join(s, ";")
+}
+
+func hexOr(b []byte) string {
+	if len(b) == 0 {
+		return "-"
+	}
+	return hex.EncodeToString(b)
+}
+
+// renderAssignment: ok|v<version>|<entries sorted by hex name>|u<hex user data>|r<remain>, or err
+func renderAssignment(b []byte) (res string) {
+	defer func() {
+		if r := recover(); r != nil {
+			res = "panic"
+		}
+	}()
+	v, topics, u, remain, err := kafka.VerifC14ReadAssignment(b)
+	if err != nil {
+		return "err"
+	}
+	var es []string
+	for t, ps := range topics {
+		es = append(es, "x"+hex.EncodeToString([]byte(t))+"="+ints32(ps))
+	}
+	sort.Strings(es)
+	e := "-"
+	if len(es) > 0 {
+		e = strings.Join(es, ";")
+	}
+	return fmt.Sprintf("ok|v%d|%s|u%s|r%d", v, e, hexOr(u), remain)
+}
+
+func renderMetadata(b []byte) (res string) {
+	defer func() {
+		if r := recover(); r != nil {
+			res = "panic"
+		}
+	}()
+	v, topics, u, remain, err := kafka.VerifC14ReadMetadata(b)
+	if err != nil {
+		return "err"
+	}
+	ts := make([]string, len(topics))
+	for i, t := range topics {
+		ts[i] = "x" + hex.EncodeToString([]byte(t))
+	}
+	e := "-"
+	if len(ts) > 0 {
+		e = strings.Join(ts, ";")
+	}
+	return fmt.Sprintf("ok|v%d|%s|u%s|r%d", v, e, hexOr(u), remain)
+}
+
+// wire emits the byte-level cases:
+//
+//	abytes <entries>            -> hex of groupAssignment{1, entries}.bytes()   (Go picks the entry order)
+//	aread <hex> <entries|?>     -> what groupAssignment.readFrom makes of the bytes (entries given for intact bytes)
+//	mbytes <topics> <userdata>  -> hex of groupMetadata{1, topics, userdata}.bytes()   (userdata: nil | x<hex>)
+//	mread <hex> <topics|?> <userdata|?>
+func wire(r *rand.Rand, n int) {
+	name := func() string {
+		switch r.Intn(4) {
+		case 0:
+			return "t" + strconv.Itoa(r.Intn(12))
+		case 1:
+			return string(gen.Bytes(r, r.Intn(5)))
+		case 2:
+			return strings.Repeat("n", 200+r.Intn(200))
+		default:
+			return "topic-" + strconv.Itoa(r.Intn(1000))
+		}
+	}
+	val := func() int32 {
+		switch r.Intn(5) {
+		case 0:
+			return int32(r.Uint32()) // any int32, negative too
+		case 1:
+			return []int32{0, -1, 2147483647, -2147483648, 255, 256, 65535, 65536}[r.Intn(8)]
+		default:
+			return int32(r.Intn(64))
+		}
+	}
+	for k := 0; k < n; k++ {
+		ne := r.Intn(5)
+		if r.Intn(8) == 0 {
+			ne = r.Intn(30)
+		}
+		seen := map[string]bool{}
+		var es []entry
+		for len(es) < ne {
+			nm := name()
+			if seen[nm] {
+				continue
+			}
+			seen[nm] = true
+			vs := make([]int32, r.Intn(6))
+			for i := range vs {
+				vs[i] = val()
+			}
+			es = append(es, entry{nm, vs})
+		}
+		m := map[string][]int32{}
+		for _, e := range es {
+			m[e.name] = e.vals
+		}
+		b := kafka.VerifC14AssignmentBytes(m)
+		fmt.Fprintf(out, "abytes %s\t%s\n", fmtEntries(es), hexOr(b))
+		fmt.Fprintf(out, "aread %s %s\t%s\n", hexOr(b), fmtEntries(es), renderAssignment(b))
+		if len(b) > 0 { // a cut and a flipped byte: the reader model must make the same of them as the code
+			cut := b[:r.Intn(len(b))]
+			fmt.Fprintf(out, "aread %s ?\t%s\n", hexOr(cut), renderAssignment(cut))
+		}
+		// metadata
+		nt := r.Intn(5)
+		ts := make([]string, nt)
+		tsf := make([]string, nt)
+		for i := range ts {
+			ts[i] = name()
+			if i > 0 && r.Intn(5) == 0 {
+				ts[i] = ts[r.Intn(i)] // a repeated topic
+			}
+			tsf[i] = "x" + hex.EncodeToString([]byte(ts[i]))
+		}
+		tl := "-"
+		if nt > 0 {
+			tl = strings.Join(tsf, ";")
+		}
+		var ud []byte
+		uds := "nil"
+		if r.Intn(3) != 0 {
+			ud = []byte(zoneName(r.Intn(4)))
+			if ud == nil {
+				ud = []byte{}
+			}
+			uds = "x" + hex.EncodeToString(ud)
+		}
+		mb := kafka.VerifC14MetadataBytes(ts, ud)
+		fmt.Fprintf(out, "mbytes %s %s\t%s\n", tl, uds, hexOr(mb))
+		fmt.Fprintf(out, "mread %s %s %s\t%s\n", hexOr(mb), tl, uds, renderMetadata(mb))
+		cut := mb[:r.Intn(len(mb))]
+		fmt.Fprintf(out, "mread %s ? ?\t%s\n", hexOr(cut), renderMetadata(cut))
+	}
+}
+
 var protoOf = map[string]string{"grange": "range", "grr": "roundrobin", "grack": "rack-affinity"}
 
 // canon32 renders what the members received (member => topic => partitions), sorted, empty lists dropped.
@@ -431,6 +602,13 @@ func main() {
 		glue("grr", ms, ps, glueRepeat)
 		glue("grack", ms, ps, glueRepeat)
 	}
+
+	// ---- 2b. byte level
+	nWire := 600
+	if thorough {
+		nWire = 8000
+	}
+	wire(r, nWire)
 
 	// the two regression witnesses of finding C14-D30 (Props/C14.lean §5)
 	{
